@@ -61,7 +61,8 @@ example : ∃ (o : BOut) (s : String), build (fun _ => true) 4 true false e {} {
 
 /-- **`C09_each_function`** (`h2 : 2 ≤ ss.length`, `hp : Plain a`) -/
 example := Theorems.C09.C09_each_function (F := Int) d0 {} .nil (.node 0) none ⟨.node 0, 1, 1⟩ " X  y " "y" "s"
-  2 3 ["p", "q", "r"] (by decide) [.node 2, .node 4] plain_lit
+  2 3 ["p", "q", "r"] (by decide) [.node 2, .node 4] plain_lit (.nodes [.node 2]) (.nodes [.node 3, .node 5])
+  (.nodes _) (.nodes _)
 
 /-- **`C09_nodeset_argument`** (`name ∈ firstArgFns`, `RestOk`): `substring(//a, 1, 2)` with a
 two-node list -/
@@ -69,10 +70,43 @@ example : callFn (F := Int) d0 {} "substring" .nil (.node 0)
       [.ok (.nodes [.node 2, .node 6]), .ok (.num 0), .ok (.num 1)] none
     = callFn d0 {} "substring" .nil (.node 0)
       [.ok (.str (Spec.toStr (F := Int) d0 (.nodes [.node 2, .node 6]))), .ok (.num 0), .ok (.num 1)] none :=
-  Theorems.C09.C09_nodeset_argument (F := Int) d0 {} .nil (.node 0) none "substring" (by decide)
+  (Theorems.C09.C09_nodeset_argument (F := Int) d0 {} .nil (.node 0) none "substring" (by decide)
     [.node 2, .node 6] [.ok (.num 0), .ok (.num 1)] (by
-      unfold RestOk; rw [if_pos rfl]; exact .inr ⟨0, 1, rfl⟩)
+      unfold RestOk; rw [if_pos rfl]; exact .inr ⟨0, 1, rfl⟩)).1
 example : Spec.toStr (F := Int) d0 (.nodes [.node 2, .node 6]) = "t" := by decide +kernel
+
+/-- **`C09_nodeset_argument`**, second position (`name ∈ secondArgFns`): `contains('xtx', //a)` -/
+example : callFn (F := Int) d0 {} "contains" .nil (.node 0)
+      [.ok (.str "xtx"), .ok (.nodes [.node 2, .node 6])] none
+    = callFn d0 {} "contains" .nil (.node 0)
+      [.ok (.str "xtx"), .ok (.str (Spec.toStr (F := Int) d0 (.nodes [.node 2, .node 6])))] none :=
+  (Theorems.C09.C09_nodeset_argument (F := Int) d0 {} .nil (.node 0) none "contains" (by decide)
+    [] [] (by unfold RestOk; simp)).2 (by decide) _ _ _
+
+/-- **`C09_string_tests_either_position`**: `contains(//b, //a)` = `contains('u', 't')` = false and
+`ends-with('xt', //a)` = true, on both sides (both were errors before the repair) -/
+example : callFn (F := Int) d0 {} "contains" .nil (.node 0)
+      [.ok (.nodes [.node 4]), .ok (.nodes [.node 2, .node 6])] none = .ok (.bool false) ∧
+    Spec.callFn (F := Int) d0 ⟨.node 0, 1, 1⟩ "contains" [.nodes [.node 4], .nodes [.node 2, .node 6]]
+      = .ok (.bool false) := by
+  have h := Theorems.C09.C09_string_tests_either_position (F := Int) d0 {} .nil (.node 0) none
+    ⟨.node 0, 1, 1⟩ "contains" (by decide) (.nodes [.node 4]) (.nodes [.node 2, .node 6]) (.nodes _) (.nodes _)
+  have e : strTestOf "contains" (Spec.toStr (F := Int) d0 (.nodes [.node 4]))
+      (Spec.toStr (F := Int) d0 (.nodes [.node 2, .node 6])) = false := by decide +kernel
+  rw [e] at h
+  exact h
+example : callFn (F := Int) d0 {} "ends-with" .nil (.node 0)
+      [.ok (.str "xt"), .ok (.nodes [.node 2, .node 6])] none = .ok (.bool true) := by
+  have h := (Theorems.C09.C09_string_tests_either_position (F := Int) d0 {} .nil (.node 0) none
+    ⟨.node 0, 1, 1⟩ "ends-with" (by decide) (.str "xt") (.nodes [.node 2, .node 6]) (.str _) (.nodes _)).1
+  have e : strTestOf "ends-with" (Spec.toStr (F := Int) d0 (.str "xt"))
+      (Spec.toStr (F := Int) d0 (.nodes [.node 2, .node 6])) = true := by decide +kernel
+  rw [e] at h
+  exact h
+
+/-- **`C09_string_tests_raise`** (`hw`): `contains('a', 0)` and `contains(0, 'a')` still raise -/
+example := Theorems.C09.C09_string_tests_raise (F := Int) d0 {} .nil (.node 0) none "contains" (by decide)
+  (.str "a") (.num 0) (.inl ⟨0, rfl⟩)
 
 /-- **`C09_normalize_space`** -/
 example : normalizeSpaceM " X  y " = Spec.fnNormalizeSpace " X  y " :=
